@@ -11,6 +11,7 @@ import (
 	"io"
 	"net"
 	"os"
+	"path/filepath"
 	"time"
 
 	cj "github.com/refraction-networking/conjure/pkg/station/lib"
@@ -117,8 +118,51 @@ func (c *recConn) SetDeadline(time.Time) error      { return nil }
 func (c *recConn) SetReadDeadline(time.Time) error  { return nil }
 func (c *recConn) SetWriteDeadline(time.Time) error { return nil }
 
-// clientFlight produces the genuine first flight of the real client transport for r.
+var flightMem = map[string][]byte{}
+
+// clientFlight returns the genuine first flight of the real client transport for r. The real clients
+// draw ephemeral keys and padding from crypto/rand, so two calls give different bytes (and, for
+// obfs4, different lengths). Within one run all worker processes must enumerate over the same
+// flights: the first process to need a flight publishes it (atomically, link(2)) in the directory
+// named by VERIF_FLIGHTS, everybody else reads it from there. A replay preloads flightMem.
 func clientFlight(r regSpec) []byte {
+	var pbytes []byte
+	if r.params != nil {
+		pbytes, _ = proto.MarshalOptions{Deterministic: true}.Marshal(r.params)
+	}
+	key := fmt.Sprintf("s%d-t%d-%x", r.secret, int32(r.tt), sha256.Sum256(pbytes))[:40]
+	if f, ok := flightMem[key]; ok {
+		return f
+	}
+	dir := os.Getenv("VERIF_FLIGHTS")
+	if dir == "" {
+		f := genClientFlight(r)
+		flightMem[key] = f
+		return f
+	}
+	path := filepath.Join(dir, key+".bin")
+	if b, err := os.ReadFile(path); err == nil {
+		flightMem[key] = b
+		return b
+	}
+	f := genClientFlight(r)
+	tmp, err := os.CreateTemp(dir, "tmp-*")
+	if err != nil {
+		vh.Fatal("flight cache: %v", err)
+	}
+	_, _ = tmp.Write(f)
+	tmp.Close()
+	_ = os.Link(tmp.Name(), path) // loses silently if another process was first
+	os.Remove(tmp.Name())
+	b, err := os.ReadFile(path)
+	if err != nil {
+		vh.Fatal("flight cache: %v", err)
+	}
+	flightMem[key] = b
+	return b
+}
+
+func genClientFlight(r regSpec) []byte {
 	secret := vfix.Secret(r.secret)
 	switch r.tt {
 	case pb.TransportType_Min:
